@@ -29,6 +29,7 @@ class Acc:
         self.replay = replay
         self.shard = shard
         self.states = set()
+        self.export_states = False      # True: ship the state hashes to the parent for an exact union over shards
         self.traces = 0
         self.evaluations = 0
         self.nontrivial = set()
@@ -91,6 +92,8 @@ class Acc:
     def result(self):
         return {
             "shard": self.shard,
+            "state_set": frozenset(self.states) if self.export_states else None,
+            "nontrivial_set": frozenset(self.nontrivial) if self.export_states else None,
             "states": len(self.states),
             "transitions": ops.COUNTERS["transitions"] - self._t0,
             "api_calls": ops.COUNTERS["observations"] - self._o0,
@@ -115,6 +118,13 @@ def merge(results):
     tot = {"states": 0, "transitions": 0, "api_calls": 0, "traces": 0, "evaluations": 0, "nontrivial": 0,
            "outcomes": 0, "skipped": Counter(), "counters": Counter(), "samples": [], "violations": [],
            "n_violations": 0, "sig_counts": Counter(), "known": Counter(), "known_samples": {}, "shards": 0, "cpu_s": 0.0}
+    union, union_nt, exact = set(), set(), bool(results)
+    for r in results:
+        if r.get("state_set") is None:
+            exact = False
+        else:
+            union |= r["state_set"]
+            union_nt |= r["nontrivial_set"]
     for r in results:
         tot["shards"] += 1
         for k in ("states", "transitions", "api_calls", "traces", "evaluations", "nontrivial", "outcomes",
@@ -131,6 +141,8 @@ def merge(results):
         for s in r["samples"]:
             if len(tot["samples"]) < 6:
                 tot["samples"].append(s)
+    if exact:           # shards overlap by construction: count distinct states over the whole run
+        tot["states"], tot["nontrivial"] = len(union), len(union_nt)
     return tot
 
 
@@ -169,6 +181,7 @@ def write_evidence(prop, tier, seed, tot, wall, meta, exhaustive=True, error=Non
         "known_finding_hits": dict(tot["known"]),
         "violation_signatures": dict(sorted(tot["sig_counts"].items(), key=lambda kv: -kv[1])[:400]),
         "determinism": meta.get("determinism", ""),
+        "phases_s": meta.get("phases_s", {}),
         "repo": env.REPO,
     }
     if error:
